@@ -350,6 +350,9 @@ ADDENDA13 = {
     "C04": ("; divisor guards of the C templates", " Also decides that an integer division in a C template is guarded by a zero test of the divisor itself (same operand, same mask)."),
     "C07": ("; divisor guards of the C templates (shared with C04)", " Also decides that the backup / Orc-free C of an integer division cannot divide by zero where emulation returns the reference constant."),
     "C14": ("; capacity of the compiler's own tables against rewritten programs (shared with C05)", " Also decides that the compiler's appenders check their fixed tables before storing (a parsed program grows while it is rewritten)."),
+    "C18": ("; finite evaluation of the SIMD constant synthesiser's register-only shortcuts", " Also decides that every shift-built constant of the SSE/MMX constant loaders is the value it is selected for (so a float constant is the same number in native code as in emulation)."),
+    "C19": ("; call order of orc_init (ORC_CODE list filled before any back end's CPU detection)", " Also decides that orc_init fills the ORC_CODE flag list before any call that can reach a reader of it."),
+    "C20": ("; per-lane invocation of rules by the C back end", " Also decides that the C back end invokes an opcode's rule once per lane of an x2/x4 instruction at every emission site."),
     "C09": ("; the write and execute views of a region are one pointer or shared mappings of one descriptor", " Also decides that every way of obtaining code memory makes region->write_ptr and region->exec_ptr views of the same pages."),
     "C10": ("; sign of the row stride added to executor pointers (shared with C03)", " Also decides that the int stride is widened with its sign before it is added to the 8-byte array pointers between rows."),
     "C12": ("; finite evaluation of the register-name helpers over every register of their bank", " Also decides that the listing's register-name helpers name every register of the xmm, mm and ymm banks (both VEX lengths) by its own name."),
